@@ -288,6 +288,16 @@ func genFlows() *rapid.Generator[[]flowSpec] {
 		for i := 0; i < n; i++ {
 			f := pool[rapid.IntRange(0, len(pool)-1).Draw(t, "pat")]
 			f.Segs = append([]string(nil), f.Segs...)
+			// now and then a flow spells a path parameter of the shared pattern differently ({y} for {x}): the tree
+			// refuses a second name at one position, so such a flow is either rejected or - if accepted - selected
+			// like any other
+			if rapid.IntRange(0, 7).Draw(t, "respell") == 0 {
+				for k, sgm := range f.Segs {
+					if sgm == "{x}" {
+						f.Segs[k] = "{y}"
+					}
+				}
+			}
 			f.Name = fmt.Sprintf("f%d", i)
 			if rapid.IntRange(0, 2).Draw(t, "hasMethod") == 0 {
 				f.Methods = rapid.SliceOfNDistinct(rapid.SampledFrom(methods), 1, 2, rapid.ID[string]).Draw(t, "methods")
